@@ -182,6 +182,21 @@ def run_case(ctx, P, stream, idx):
         out_name = r.choice(meta["B"])[0]
     else:
         out_name = r.choice(meta[okind])["name"]
+    in_value = None
+    if not evalmode:
+        import re
+
+        m_ = re.search(r"\b%s: [^=\n]+ = ([^,)\n]+)" % re.escape(in_name), inp_src)
+        in_value = m_.group(1).strip() if m_ else None
+        all_out_names = set(n for n, _, _ in meta["B"]) | set(p_["name"] for p_ in meta["B.m"] + meta["g"])
+        if r.random() < 0.35 and in_name not in all_out_names and in_name != out_name:
+            # directed: the selected output location already has the input's name
+            out_src = re.sub(r"\b%s\b" % re.escape(out_name), in_name, out_src)
+            for p_ in meta["B.m"] + meta["g"]:
+                if p_["name"] == out_name:
+                    p_["name"] = in_name
+            meta["B"] = [(in_name if n == out_name else n, t, v) for n, t, v in meta["B"]]
+            out_name = in_name
     out_param = "%s.%s" % (okind, out_name)
     d = tempfile.mkdtemp(prefix="vcdd-c13-")
     try:
@@ -275,8 +290,8 @@ def run_case(ctx, P, stream, idx):
             dev("location.eval-attribute-value-dropped", "eval mode dropped the attribute's value: %s" % ast.unparse(node))
     else:
         got_name, got_ann = sel_a["name"], ast.unparse(sel_a["annotation"]) if sel_a["annotation"] is not None else None
-        if not coincide and sel_b["slot"] is not None:
-            pass  # own default compared through the masked dump (not masked when names differ)
+        # when names coincide the location's *own* default may take the input's value (the property
+        # only demands that every *other* default is untouched, which the masked comparison decided)
     if got_name != exp_name:
         dev("location.name", "selected location is named %r, expected %r" % (got_name, exp_name))
     if evalmode:
